@@ -105,6 +105,22 @@ func init() {
 	// verifFreezeGlobals(): all package-level variables of the soy packages become read-only.
 	verifIntrinsics["verifFreezeGlobals"] = func(in *Interp, _ *frame, a []Value) Value {
 		seen := map[interface{}]bool{}
+		// package-level variables get their cell on first use: give every variable of the soy
+		// packages one now, so that a variable first touched during the frozen section (a cache
+		// that starts out empty) is monitored as well
+		for _, pkg := range in.prog.AllPackages() {
+			if pkg.Pkg == nil || !strings.HasPrefix(pkg.Pkg.Path(), "github.com/robfig/soy") {
+				continue
+			}
+			if !in.initPkgs[pkg.Pkg.Path()] {
+				continue
+			}
+			for _, mem := range pkg.Members {
+				if g, ok := mem.(*ssa.Global); ok && !strings.HasPrefix(g.Name(), "verif") {
+					in.global(g)
+				}
+			}
+		}
 		for g, cell := range in.globals {
 			if g.Pkg == nil || !strings.HasPrefix(g.Pkg.Pkg.Path(), "github.com/robfig/soy") {
 				continue
@@ -365,6 +381,79 @@ func init() {
 			}
 		}
 		in.pools[p] = append(in.pools[p], x)
+		return nil
+	}
+	// sync.Map: modelled as a map from interface keys to interface values held in a side table per
+	// receiver. Its internal words are synchronised by the runtime, but the *content* is state: a
+	// mutation of a sync.Map that lives in frozen memory is reported like a map update.
+	syncMap := func(in *Interp, p *Value, write bool, what string) *MapV {
+		if p == nil {
+			in.rtPanic("invalid memory address or nil pointer dereference")
+		}
+		if in.syncMaps == nil {
+			in.syncMaps = map[*Value]*MapV{}
+		}
+		m := in.syncMaps[p]
+		if m == nil {
+			m = newMap(types.NewInterfaceType(nil, nil))
+			in.syncMaps[p] = m
+		}
+		if write && in.frozen != nil {
+			if lbl, ok := in.frozen[p]; ok {
+				in.frozenWrite(what, lbl)
+			}
+		}
+		return m
+	}
+	intrinsics["(*sync.Map).Load"] = func(in *Interp, _ *frame, a []Value) Value {
+		m := syncMap(in, a[0].(*Value), false, "")
+		if v, ok := in.mapGet(m, a[1]); ok {
+			return Tuple{v, true}
+		}
+		return Tuple{Iface{}, false}
+	}
+	intrinsics["(*sync.Map).Store"] = func(in *Interp, _ *frame, a []Value) Value {
+		in.mapSet(syncMap(in, a[0].(*Value), true, "sync.Map.Store"), a[1], a[2])
+		return nil
+	}
+	intrinsics["(*sync.Map).LoadOrStore"] = func(in *Interp, _ *frame, a []Value) Value {
+		m := syncMap(in, a[0].(*Value), false, "")
+		if v, ok := in.mapGet(m, a[1]); ok {
+			return Tuple{v, true}
+		}
+		in.mapSet(syncMap(in, a[0].(*Value), true, "sync.Map.LoadOrStore"), a[1], a[2])
+		return Tuple{a[2], false}
+	}
+	intrinsics["(*sync.Map).LoadAndDelete"] = func(in *Interp, _ *frame, a []Value) Value {
+		m := syncMap(in, a[0].(*Value), false, "")
+		if v, ok := in.mapGet(m, a[1]); ok {
+			in.mapDelete(syncMap(in, a[0].(*Value), true, "sync.Map.LoadAndDelete"), a[1])
+			return Tuple{v, true}
+		}
+		return Tuple{Iface{}, false}
+	}
+	intrinsics["(*sync.Map).Delete"] = func(in *Interp, _ *frame, a []Value) Value {
+		m := syncMap(in, a[0].(*Value), false, "")
+		if in.mapFind(m, a[1]) >= 0 {
+			in.mapDelete(syncMap(in, a[0].(*Value), true, "sync.Map.Delete"), a[1])
+		}
+		return nil
+	}
+	intrinsics["(*sync.Map).Range"] = func(in *Interp, fr *frame, a []Value) Value {
+		m := syncMap(in, a[0].(*Value), false, "")
+		n := len(m.Keys)
+		for i := 0; i < n; i++ {
+			if m.Dead[i] {
+				continue
+			}
+			r := in.call(fr, a[1], []Value{m.Keys[i], copyVal(m.Vals[i])})
+			if b, ok := r.(bool); ok && !b {
+				break
+			}
+			if t, ok := r.(*Term); ok && !in.branch(t) {
+				break
+			}
+		}
 		return nil
 	}
 	intrinsics["(*sync.Once).Do"] = func(in *Interp, fr *frame, a []Value) Value {
@@ -799,6 +888,11 @@ func (in *Interp) sprintf(fr *frame, format Value, args []Value) Value {
 			emit("%!" + string(verb) + "(MISSING)")
 			continue
 		}
+		if hx := in.symHexArg(args[ai], spec, verb); hx != nil {
+			ai++
+			out = append(out, hx...)
+			continue
+		}
 		h, sym := in.fmtArg(fr, args[ai], verb)
 		ai++
 		if sym != nil {
@@ -823,6 +917,72 @@ func (in *Interp) sprintf(fr *frame, format Value, args []Value) Value {
 		emit("%!(EXTRA)")
 	}
 	return mkStr(out)
+}
+
+// symHexArg renders a symbolic integer under %x/%X (optionally zero padded: %04X) exactly: the
+// number of digits is decided by branching on the magnitude, each digit is a term. Returns nil
+// when the operand or the spec is not of that shape.
+func (in *Interp) symHexArg(v Value, spec string, verb byte) []Value {
+	if verb != 'x' && verb != 'X' {
+		return nil
+	}
+	i, ok := v.(Iface)
+	if !ok || i.T == nil {
+		return nil
+	}
+	x, ok := i.V.(*Term)
+	if !ok || x.S.K != SBV {
+		return nil
+	}
+	k, _ := basicOf(i.T)
+	if k != kInt && k != kUint {
+		return nil
+	}
+	width := 0
+	mid := spec[1 : len(spec)-1]
+	if mid != "" {
+		if mid[0] != '0' {
+			return nil
+		}
+		for _, c := range mid[1:] {
+			if c < '0' || c > '9' {
+				return nil
+			}
+			width = width*10 + int(c-'0')
+		}
+	}
+	w := x.S.W
+	if k == kInt && in.branch(bvCmp("bvslt", x, Const(w, 0))) {
+		in.unsupported("fmt %x of a negative symbolic integer")
+	}
+	nd := (w + 3) / 4
+	for nd > 1 {
+		lo := 4 * (nd - 1)
+		if !in.branch(Not(Eq(bvBin("bvlshr", x, Const(w, uint64(lo))), Const(w, 0)))) {
+			nd--
+			continue
+		}
+		break
+	}
+	var out []Value
+	for p := nd; p < width; p++ {
+		out = append(out, uint64('0'))
+	}
+	al := uint64('a')
+	if verb == 'X' {
+		al = 'A'
+	}
+	for d := nd - 1; d >= 0; d-- {
+		nib := Extract(bvBin("bvlshr", x, Const(w, uint64(4*d))), 3, 0)
+		n8 := ZExt(nib, 8)
+		dig := Ite(bvCmp("bvult", n8, Const(8, 10)), bvBin("bvadd", n8, Const(8, '0')), bvBin("bvadd", n8, Const(8, al-10)))
+		if dig.IsConst() {
+			out = append(out, dig.C)
+		} else {
+			out = append(out, dig)
+		}
+	}
+	return out
 }
 
 func (in *Interp) sprint(fr *frame, args []Value, ln bool) Value {
